@@ -7,6 +7,8 @@ names = sys.argv[1:] or sorted(os.listdir("/verif/seeded"))
 for n in names:
     d = os.path.join("/verif/seeded", n)
     pid = n.split("-")[0]
+    mp0 = os.path.join(d, "meta.json")
+    pid = json.load(open(mp0)).get("checked_with", pid)  # a seed whose violation belongs to a neighbouring property's clause
     r = subprocess.run(["/verif/tools/sens.py", pid, os.path.join(d, "patch.diff"), "--lines", "400"], capture_output=True, text=True)
     sigs = sorted(set(re.findall(r"^\s+\[([^\]]+)\]", r.stdout, flags=re.M)))
     verdict = r.stdout.strip().splitlines()[-1] if r.stdout.strip() else "?"
